@@ -529,6 +529,9 @@ def run_c15(pid):
                 bps = max(1, min(32, p["bps"]))
                 jobs.append(job_of(p, fe, 40, 40 * upf_of(fe, ch, bps), tag="core-declared"))
                 jobs.append(job_of(p, fe, 40, 7, tag="core-declared"))
+                # ... and with the degenerate totals 0 and 1 (0 is a declared total for the byte and sample writers)
+                jobs.append(job_of(p, fe, 40, 0, tag="core-declared"))
+                jobs.append(job_of(p, fe, 40, 1, tag="core-declared"))
     # window parameters: every f32 is an option value (tiny tapers, NaN, infinities, negative, above 1) x block sizes around the taper length
     for w in ("tukey:nan", "tukey:inf", "tukey:-inf", "tukey:-1", "tukey:2", "tukey:1e-9", "tukey:0.0001", "tukey:0.124", "tukey:0.125", "tukey:0.13",
               "tukey:0.999999", "tukey:1", "tukey:0", "tukey:-0", "tukey:3e38", "hann", "rect"):
